@@ -145,11 +145,20 @@ def start(
         sys.argv[0], context_name, os.getpid(), config_file
     )
 
-    # Start QMI context.
-    _qmi_context.start()
+    try:
+        # Start QMI context.
+        _qmi_context.start()
 
-    # Connect to peer contexts.
-    _connect_to_peers()
+        # Connect to peer contexts.
+        _connect_to_peers()
+    except BaseException:
+        # Failed start: forget the context so that qmi.start() can be called again,
+        # and stop it if it got as far as being active.
+        failed_context = _qmi_context
+        _qmi_context = None
+        if failed_context._active:
+            failed_context.stop()
+        raise
 
 
 def create_config_from_file(config_file: str | None) -> CfgQmi:
